@@ -1,4 +1,4 @@
-\* C19 long vectors: tlc -simulate num=K -depth 32 -seed S ; one behaviour = one input with 5..30
+\* C19 long vectors: tlc -simulate num=K -depth 33 -seed S ; one behaviour = one input with 5..30
 \* significant digits and a uniformly chosen fractional length 0..9, digits chosen at random
 SPECIFICATION SpecSim
 CONSTANTS
